@@ -217,6 +217,101 @@ func ruleT10c(c *Ctx) {
 		_, known := mandatoryBlankRules[r]
 		c.check(known, "T10c", "mandatory blank in rule "+r, c.L.Pos(g.Rules[r].Pos.Pos()), "rule "+r+" requires at least one blank; on the confirmed grammar only "+strings.Join(keysOfReasons(mandatoryBlankRules), ", ")+" do")
 	}
+	// (b) the comment characters have a meaning only in the rules that implement comments and
+	// line ends: a character class or literal with `;` or `#` anywhere else (a cheap look-ahead
+	// that "stops at a comment") takes them away from string literals, where they are data
+	special := map[string]bool{}
+	var walk2 func(r string, e *pegNode)
+	walk2 = func(r string, e *pegNode) {
+		if e == nil {
+			return
+		}
+		switch e.Kind {
+		case "lit":
+			if e.Val == ";" || e.Val == "#" {
+				special[r] = true
+			}
+		case "class":
+			for _, ch := range e.Chars {
+				if ch == ';' || ch == '#' {
+					special[r] = true
+				}
+			}
+			for i := 0; i+1 < len(e.Ranges); i += 2 {
+				if (e.Ranges[i] <= ';' && ';' <= e.Ranges[i+1]) || (e.Ranges[i] <= '#' && '#' <= e.Ranges[i+1]) {
+					if !e.Inverted {
+						// a printable range that merely contains them (string contents) is not special
+						continue
+					}
+					special[r] = true
+				}
+			}
+		}
+		for _, k := range e.Kids {
+			walk2(r, k)
+		}
+	}
+	for _, r := range g.Order {
+		walk2(r, g.Rules[r])
+	}
+	var spl []string
+	for r := range special {
+		spl = append(spl, r)
+	}
+	sort.Strings(spl)
+	for _, r := range spl {
+		_, known := commentCharRules[r]
+		c.check(known, "T10c", "comment characters named in rule "+r, c.L.Pos(g.Rules[r].Pos.Pos()), "rule "+r+" gives `;` or `#` a meaning of its own; on the confirmed grammar only "+strings.Join(keysOfReasons(commentCharRules), ", ")+" do — elsewhere (a look-ahead that stops at a comment character) they are cut out of string literals")
+	}
+	// (c) brackets accept blanks inside: the rules that on the confirmed grammar allow optional
+	// white space right after the opening and right before the closing bracket still do
+	padded := map[string]bool{}
+	var walk3 func(r string, e *pegNode)
+	walk3 = func(r string, e *pegNode) {
+		if e == nil {
+			return
+		}
+		if e.Kind == "seq" {
+			for i, k := range e.Kids {
+				if k.Kind != "lit" || (k.Val != "(" && k.Val != "[") {
+					continue
+				}
+				closer := map[string]string{"(": ")", "[": "]"}[k.Val]
+				for j := i + 1; j < len(e.Kids); j++ {
+					if e.Kids[j].Kind == "lit" && e.Kids[j].Val == closer {
+						isWS := func(x *pegNode) bool {
+							return x != nil && x.Kind == "ref" && (x.Name == "_" || x.Name == "WS") && g.Rules[x.Name] != nil && g.nullable(g.Rules[x.Name], map[string]bool{})
+						}
+						if j-i >= 3 && isWS(e.Kids[i+1]) && isWS(e.Kids[j-1]) && e.Kids[i+1].Name == "_" && e.Kids[j-1].Name == "_" {
+							padded[r+" "+k.Val+closer] = true
+						}
+						break
+					}
+				}
+			}
+		}
+		for _, k := range e.Kids {
+			walk3(r, k)
+		}
+	}
+	for _, r := range g.Order {
+		walk3(r, g.Rules[r])
+	}
+	for _, want := range keysOfReasons(bracketPaddedRules) {
+		c.check(padded[want], "T10c", "blanks inside brackets of "+want, "", "rule "+want+" no longer accepts optional white space (blanks, newlines, comments: `_`) right after its opening and right before its closing bracket: `( 1+2 )` and `(1+2)` must assemble alike")
+	}
+	c.analysed["T10c_padded_bracket_rules"] = len(padded)
+}
+
+// rules of the source grammar in which `;` / `#` legitimately appear (confirmed by reading)
+var commentCharRules = map[string]string{
+	"Comment":       "the comment rule itself",
+	"TrailingWsEOL": "end-of-statement look-ahead: a comment may follow",
+}
+
+// rule + bracket pair that accept `_` on both inner sides on the confirmed grammar
+var bracketPaddedRules = map[string]string{
+	"PrimaryParen ()": "'(' _ e:AddExp _ ')' — blanks, newlines and comments may follow `(` and precede `)`",
 }
 
 // rules of the source grammar that legitimately require one or more blanks (confirmed by reading)
